@@ -367,7 +367,8 @@ def backend_battery(acc: core.Acc, names: list, workdir: str, only: dict | None 
                 acc.nontrivial += 1
                 if len({core.jdump(list(v[:2])) for v in seen.values()}) > 1:
                     acc.fail('casedup_backends_disagree',
-                             {'part': 'backend', 'names': names, 'backend': '*', 'op': 'casedup', 'base': q, 'feats': []},
+                             {'part': 'backend', 'names': names, 'backend': '*', 'op': 'casedup', 'base': q, 'feats': [],
+                              'lookup_op': op},
                              f'files {[n for n, _ in files]} (in this order): {op}({q!r}) differs between backends: {seen}',
                              op=op, dot=dotted)
     # ---- walks
@@ -735,7 +736,8 @@ def replay(case: dict) -> list:
                             only={'backend': case['backend'], 'op': case['op'], 'base': case['base']})
             fails = [f for f in acc.all_failures()
                      if f.case.get('feats') == case.get('feats') and f.case['op'] == case['op']
-                     and f.case['base'] == case['base'] and f.case['backend'] == case['backend']]
+                     and f.case['base'] == case['base'] and f.case['backend'] == case['backend']
+                     and f.case.get('lookup_op') == case.get('lookup_op')]
         else:
             pooldir = os.path.join(base, 'pool')
             members = []
